@@ -49,7 +49,8 @@ def readTlvLoop : Nat → Reader → TlvMap → TlvParse
     | none =>
       let tag := fromBe (hd.take 2)
       let len := fromBe (hd.drop 2)
-      let r1a := { r1 with alloc := r1.alloc + len }   -- value := make([]byte, length)
+      -- value := make([]byte, min(length, r.Remaining()+1)): the untrusted length never sizes the buffer beyond the input
+      let r1a := { r1 with alloc := r1.alloc + min len (r1.remaining + 1) }
       let (v, r2) := r1a.readBytes len
       match r2.err with
       | some .eof => ⟨some m, r2.setErrNil⟩
